@@ -51,6 +51,9 @@ func (cs *StatusList2021) Verify(credentialToVerify vc.VerifiableCredential) err
 	// only check credentialStatus of type StatusList2021Entry with statusPurpose == revocation other types/purposes are ignored
 	// returns errors if processing fails -> TODO: hard/soft fail option?
 	// returns types.ErrRevoked if correct type, purpose, and listed.
+	// An entry that cannot be evaluated (list not retrievable, wrong purpose, index out of bounds) must not hide
+	// a later entry that lists the credential as revoked: remember the first failure and keep looking.
+	var firstErr error
 	for _, status := range statuses {
 		if status.Type != StatusList2021EntryType {
 			// ignore other credentialStatus.type
@@ -76,30 +79,38 @@ func (cs *StatusList2021) Verify(credentialToVerify vc.VerifiableCredential) err
 			continue
 		}
 
-		// get StatusList2021Credential with same purpose
-		sList, err := cs.statusList(slEntry.StatusListCredential)
+		revoked, err := cs.isListed(slEntry)
 		if err != nil {
-			return fmt.Errorf("status list: %w", err)
-		}
-		if sList.StatusPurpose != slEntry.StatusPurpose {
-			return fmt.Errorf("StatusList2021Credential.credentialSubject.statusPuspose='%s' does not match vc.credentialStatus.statusPurpose='%s'", sList.StatusPurpose, slEntry.StatusPurpose)
-		}
-
-		// check if listed
-		index, err := strconv.Atoi(slEntry.StatusListIndex)
-		if err != nil {
-			// can't happen, checked during validation of credentialToVerify
-			return err
-		}
-		revoked, err := sList.Bitstring.bit(index)
-		if err != nil {
-			return err
+			if firstErr == nil {
+				firstErr = err
+			}
+			continue
 		}
 		if revoked {
 			return errRevoked
 		}
 	}
-	return nil
+	return firstErr
+}
+
+// isListed resolves the StatusList2021Credential named by the entry and reports whether the entry's bit is set.
+func (cs *StatusList2021) isListed(slEntry StatusList2021Entry) (bool, error) {
+	// get StatusList2021Credential with same purpose
+	sList, err := cs.statusList(slEntry.StatusListCredential)
+	if err != nil {
+		return false, fmt.Errorf("status list: %w", err)
+	}
+	if sList.StatusPurpose != slEntry.StatusPurpose {
+		return false, fmt.Errorf("StatusList2021Credential.credentialSubject.statusPuspose='%s' does not match vc.credentialStatus.statusPurpose='%s'", sList.StatusPurpose, slEntry.StatusPurpose)
+	}
+
+	// check if listed
+	index, err := strconv.Atoi(slEntry.StatusListIndex)
+	if err != nil {
+		// can't happen, checked during validation of credentialToVerify
+		return false, err
+	}
+	return sList.Bitstring.bit(index)
 }
 
 func (cs *StatusList2021) statusList(statusListCredential string) (*credentialRecord, error) {
